@@ -431,7 +431,14 @@ class TElement:
             if start_pos is None:
                 assert is_valid_inner_node
                 self.start_pos = self.value[0].start_pos
-                self.end_pos = self.value[-1].end_pos
+                # the node ends where its last not-empty child ends. (a child
+                # which matched nothing is located at the following token)
+                self.end_pos = next(
+                    (
+                        x.end_pos for x in reversed(self.value)
+                        if x.start_pos.coords != x.end_pos.coords
+                    ),
+                    self.start_pos)
             else:
                 self.start_pos = start_pos
                 self.end_pos = end_pos
